@@ -163,7 +163,11 @@ def plan_for(prop, tier):
 
 
 def build_tasks(plan, prop, tier, seed, budget_s):
+    """budget_s bounds the whole batch: every task stops at the same wall-clock deadline (tasks that start after
+    it return at once), so code that makes every run crawl to its step budget still yields a verdict in time"""
+    import time
     tasks = []
+    deadline = time.time() + budget_s
     for (eng_name, kind, qn, tn) in plan["parts"]:
         eng = runner.engine(eng_name)
         takes_prop = getattr(eng, "GEN_TAKES_PROP", False)
@@ -172,7 +176,7 @@ def build_tasks(plan, prop, tier, seed, budget_s):
             per = max(1, (len(scs) + 31) // 32)
             for i in range(0, len(scs), per):
                 tasks.append({"engine": eng_name, "prop": prop, "tier": tier, "kind": "list",
-                              "scenarios": scs[i:i + per], "det_every": 97, "budget_s": budget_s,
+                              "scenarios": scs[i:i + per], "det_every": 97, "budget_s": budget_s, "deadline": deadline,
                               "gen_takes_prop": takes_prop, "watchdog_s": max(1800, int(budget_s * 2))})
         else:
             n = qn if tier == "quick" else tn
@@ -180,6 +184,6 @@ def build_tasks(plan, prop, tier, seed, budget_s):
             per = max(1, min((n + 63) // 64, 1000))       # small tasks: a stuck one is noticed, the pool stays busy
             for i in range(0, n, per):
                 tasks.append({"engine": eng_name, "prop": prop, "tier": tier, "kind": "gen",
-                              "seeds": seeds[i:i + per], "det_every": 53, "budget_s": budget_s,
+                              "seeds": seeds[i:i + per], "det_every": 53, "budget_s": budget_s, "deadline": deadline,
                               "gen_takes_prop": takes_prop, "watchdog_s": max(1800, int(budget_s * 2))})
     return tasks
